@@ -122,6 +122,10 @@ type Exec struct {
 	fixed      map[*Term]*big.Int
 	prodMemo   map[*Term]*Term
 	divMemo    map[[2]*Term][2]IntV
+	mulMemo    map[[2]*Term][2]*Term
+	ufMemo     map[string]bigRef
+	ufSeq      int
+	snaps      []bigSnap
 	noFallback bool
 	defs       []*Term // defining equations of abstracted products
 	initMode   bool
@@ -623,6 +627,11 @@ func (ex *Exec) CallFn(fn *ssa.Function, args []Value, bindings []Value) Value {
 		return nil
 	}
 	if fn.Pkg == nil || fn.Pkg.Pkg.Path() != ApdPath {
+		if ex.P.LevelB {
+			if h := ex.mathBigStub(name); h != nil {
+				return h(ex, args, nil)
+			}
+		}
 		if h := ex.externalStub(name); h != nil {
 			return h(ex, args, nil)
 		}
